@@ -2,7 +2,8 @@
    Only statements, `exact`, and Print Assumptions.
    Model: Model/Dump.v, Model/DumpReader.v, Model/DumpStack.v. *)
 From ReqV Require Import Lib.Bytes Model.Dump Model.DumpReader Model.DumpStack
-                         Proofs.DumpProofs Proofs.DumpStackProofs.
+                         Proofs.DumpProofs Proofs.DumpStackProofs Proofs.DumpMoreProofs
+                         Model.DumpSync Gen.DumpTables Proofs.DumpSyncProofs.
 
 (* ---- transparency: every hook is an observer, fst (tee f x) = f x, for ANY underlying
         writer / reader (partial writes, failures at any point) and ANY dumper list ---- *)
@@ -31,8 +32,8 @@ Theorem C13_dump_transparent_h1_recv : forall St ds n stream (r : rfn St) b0 siz
 Proof. exact @h1_recv_transparent. Qed.
 Print Assumptions C13_dump_transparent_h1_recv.
 
-Theorem C13_dump_transparent_h2_send : forall St ds enc frame endstream (w : wfn St) s q,
-  fst (h2_send ds enc frame endstream w s q) = h2_send_plain enc frame endstream w s q.
+Theorem C13_dump_transparent_h2_send : forall St ds enc frame frame_fin endstream (w : wfn St) s q,
+  fst (h2_send ds enc frame frame_fin endstream w s q) = h2_send_plain enc frame frame_fin endstream w s q.
 Proof. exact @h2_send_transparent. Qed.
 Print Assumptions C13_dump_transparent_h2_send.
 
@@ -129,7 +130,68 @@ Theorem C13_async_preserves_order : forall prog sched, run_async [] prog sched =
 Proof. exact async_preserves_order. Qed.
 Print Assumptions C13_async_preserves_order.
 
+(* ... and for the repaired DumpTo with its `running` flag, every interleaving of DumpTo calls,
+   drain steps, Start and the return of Start: written ++ still queued = the DumpTo calls in
+   program order (nothing lost, duplicated or reordered) *)
+Theorem C13_delivery_in_program_order : forall async ops,
+  d_out (run_ops async ops) ++ d_queue (run_ops async ops) = dumped_tasks ops.
+Proof. exact delivery_in_program_order. Qed.
+Print Assumptions C13_delivery_in_program_order.
+
+(* a dumper nobody starts (request level) writes everything at once whatever Async says; its
+   queue stays empty, so no DumpTo can block *)
+Theorem C13_never_started_is_synchronous : forall async ops,
+  ~ In AStart ops ->
+  d_queue (run_ops async ops) = [] /\ d_out (run_ops async ops) = dumped_tasks ops.
+Proof. exact never_started_is_synchronous. Qed.
+Print Assumptions C13_never_started_is_synchronous.
+
+(* h2 / h3 over a healthy connection: every (dumper, writer) receives, in order, what the hook
+   sequence  one line per field, CRLF, each DATA payload, CRLF CRLF  sends there, whether
+   END_STREAM rides on the last DATA frame or on an empty one (h3: the log IS that sequence, the
+   separator only if a byte was written) - the routing theorems above then say where those
+   bytes go *)
+Theorem C13_h2_request_dump_is_wire : forall i o w ds enc frame frame_fin endstream fs chunks fin_last,
+  NoDup (map fst ds) -> In (i, o) ds ->
+  let '(sr, lg) := h2_send ds enc frame frame_fin endstream app_writer [] (mkH23Req fs (Some chunks) fin_last) in
+  sr_failed sr = false /\
+  content i w lg =
+  content i w (run_hooks ds (field_hooks HReqHeader fs ++ map HReqBody (filter nonempty chunks)
+                             ++ [HReqBodyEnd sep23])).
+Proof. exact h2_send_identity_log. Qed.
+Print Assumptions C13_h2_request_dump_is_wire.
+
+Theorem C13_h3_request_dump_is_wire : forall ds enc fs chunks fl,
+  h3_send ds enc app_writer [] (mkH23Req fs (Some chunks) fl) =
+  (mkSend (enc fs ++ concat chunks) false false,
+   run_hooks ds (field_hooks HReqHeader fs ++ map HReqBody chunks
+                 ++ (if Nat.eqb (total_len chunks) 0 then [] else [HReqBodyEnd sep23]))).
+Proof. exact h3_send_identity_log. Qed.
+Print Assumptions C13_h3_request_dump_is_wire.
+
+(* ---- tie to the source text (tables regenerated from the Go files by gosync on every run) ---- *)
+(* the model's writer resolution is the fall-back chain written in dump.go, for every option
+   record and every part *)
+Theorem C13_resolve_matches_source : forall o p,
+  eval_route 3 gen_routes o (part_method p) = Some (resolve o p).
+Proof. exact resolve_matches_source. Qed.
+Print Assumptions C13_resolve_matches_source.
+
+(* the flag accessors, the Dumper method and argument (p[:n]) each wrapper in internal/dump calls,
+   the separator literal at every DumpDefault call site and the two conditions of DumpTo are the
+   ones the model is written for *)
+Theorem C13_tables_match_source :
+  gen_flags = expected_flags /\ gen_wrappers = expected_wrappers /\
+  gen_separators = expected_separators /\ gen_dumpto = expected_dumpto.
+Proof. exact tables_match_source. Qed.
+Print Assumptions C13_tables_match_source.
+
 (* ---- the pinned code, refuted ---- *)
+Theorem C13_pinned_never_started_writes_nothing : forall ops,
+  ~ In AStart ops -> d_out (run_ops_pinned true ops) = [].
+Proof. exact pinned_never_started_writes_nothing. Qed.
+Print Assumptions C13_pinned_never_started_writes_nothing.
+
 Theorem C13_pinned_read_line_refuted :
   fst (read_block read_line_dump_pinned 16 10 pinned_witness [] []) <>
   fst (read_block read_line_plain 16 10 pinned_witness [] []).
